@@ -12,10 +12,17 @@ package polprog
 
 import (
 	"encoding/binary"
+	"encoding/json"
 	"fmt"
+	"go/ast"
+	"go/parser"
+	"go/token"
 	"net"
+	"os"
+	"path/filepath"
 	"reflect"
 	"sort"
+	"strconv"
 	"strings"
 	"testing"
 
@@ -80,6 +87,13 @@ func c13StateMirrorViews() ([]c13GoView, error) {
 	}
 	typ := reflect.TypeOf(state.State{})
 	var out []c13GoView
+	// the blank field right behind ihl mirrors the C field "unused"
+	if f, ok := typ.FieldByName("ihl"); ok && len(f.Index) == 1 && f.Index[0]+1 < typ.NumField() && typ.Field(f.Index[0]+1).Name == "_" {
+		b := typ.Field(f.Index[0] + 1)
+		out = append(out, c13GoView{"tc_state", "unused", c13Both, int(b.Offset), int(b.Type.Size()), "state.State blank field after ihl"})
+	} else {
+		return nil, fmt.Errorf("HARNESS-GAP: state.State no longer has a blank field behind ihl")
+	}
 	for _, p := range pairs {
 		f, ok := typ.FieldByName(p[0])
 		if !ok {
@@ -118,6 +132,129 @@ func c13PolprogStateViews() []c13GoView {
 		{"tc_state", "flags", c13Both, o(stateOffFlags), 8, "stateOffFlags (Load64/Store64)"},
 		{"tc_state", "eventhdr", c13Both, 0, int(stateEventHdrSize), "stateEventHdrSize"},
 	}
+}
+
+// c13KnownStateOffs are the stateOff* variables c13PolprogStateViews compares by name.
+var c13KnownStateOffs = map[string]bool{
+	"stateOffIPSrc": true, "stateOffIPDst": true, "stateOffPreNATIPDst": true, "stateOffPostNATIPDst": true,
+	"stateOffPolResult": true, "stateOffSrcPort": true, "stateOffDstPort": true, "stateOffICMPType": true,
+	"stateOffPreNATDstPort": true, "stateOffPostNATDstPort": true, "stateOffIPProto": true, "stateOffIPSize": true,
+	"stateOffRulesHit": true, "stateOffRuleIDs": true, "stateOffFlags": true,
+}
+
+type c13ParsedOff struct {
+	name, field string
+	off         int
+}
+
+// c13SourcePath resolves a repo file the way the compiler did: through the build overlay
+// of this run (so a --mutate'd file is the one that is parsed), else the tree itself.
+func c13SourcePath(rel string) string {
+	orig := filepath.Join(os.Getenv("VERIF_REPO"), rel)
+	ovs, _ := filepath.Glob(filepath.Join(os.Getenv("VERIF_BUILD"), "*", "overlay.json"))
+	sort.Strings(ovs)
+	for _, ov := range ovs {
+		b, err := os.ReadFile(ov)
+		if err != nil {
+			continue
+		}
+		var o struct{ Replace map[string]string }
+		if json.Unmarshal(b, &o) == nil {
+			if alt, ok := o.Replace[orig]; ok && alt != "" {
+				return alt
+			}
+		}
+	}
+	return orig
+}
+
+// c13ParseStateOffsets lists every package-level `stateOff* = asm.FieldOffset{Offset: ..., Field: ...}`
+// of the current pol_prog_builder.go, so that an offset this harness has never heard of is noticed.
+func c13ParseStateOffsets() ([]c13ParsedOff, error) {
+	path := c13SourcePath("felix/bpf/polprog/pol_prog_builder.go")
+	fset := token.NewFileSet()
+	f, err := parser.ParseFile(fset, path, nil, 0)
+	if err != nil {
+		return nil, fmt.Errorf("HARNESS-GAP: cannot parse %s: %v", path, err)
+	}
+	var eval func(e ast.Expr) (int, error)
+	eval = func(e ast.Expr) (int, error) {
+		switch x := e.(type) {
+		case *ast.BasicLit:
+			v, err := strconv.ParseInt(x.Value, 0, 64)
+			return int(v), err
+		case *ast.Ident:
+			if x.Name == "stateEventHdrSize" {
+				return int(stateEventHdrSize), nil
+			}
+		case *ast.ParenExpr:
+			return eval(x.X)
+		case *ast.BinaryExpr:
+			a, err := eval(x.X)
+			if err != nil {
+				return 0, err
+			}
+			b, err := eval(x.Y)
+			if err != nil {
+				return 0, err
+			}
+			switch x.Op {
+			case token.ADD:
+				return a + b, nil
+			case token.SUB:
+				return a - b, nil
+			case token.MUL:
+				return a * b, nil
+			}
+		}
+		return 0, fmt.Errorf("expression not understood")
+	}
+	var out []c13ParsedOff
+	for _, d := range f.Decls {
+		gd, ok := d.(*ast.GenDecl)
+		if !ok || gd.Tok != token.VAR {
+			continue
+		}
+		for _, sp := range gd.Specs {
+			vs := sp.(*ast.ValueSpec)
+			for i, n := range vs.Names {
+				if !strings.HasPrefix(n.Name, "stateOff") || i >= len(vs.Values) {
+					continue
+				}
+				cl, ok := vs.Values[i].(*ast.CompositeLit)
+				if !ok {
+					return nil, fmt.Errorf("HARNESS-GAP: %s is not a composite literal any more", n.Name)
+				}
+				po := c13ParsedOff{name: n.Name, off: -1}
+				for _, el := range cl.Elts {
+					kv, ok := el.(*ast.KeyValueExpr)
+					if !ok {
+						continue
+					}
+					switch fmt.Sprint(kv.Key) {
+					case "Offset":
+						v, err := eval(kv.Value)
+						if err != nil {
+							return nil, fmt.Errorf("HARNESS-GAP: offset expression of %s: %v", n.Name, err)
+						}
+						po.off = v
+					case "Field":
+						if bl, ok := kv.Value.(*ast.BasicLit); ok {
+							po.field, _ = strconv.Unquote(bl.Value)
+						}
+					}
+				}
+				if po.off < 0 {
+					return nil, fmt.Errorf("HARNESS-GAP: no Offset in %s", n.Name)
+				}
+				out = append(out, po)
+			}
+		}
+	}
+	if len(out) == 0 {
+		return nil, fmt.Errorf("HARNESS-GAP: no stateOff* variables found in %s", path)
+	}
+	return out, nil
 }
 
 func c13IPSetKeyConstViews() []c13GoView {
@@ -184,6 +321,41 @@ func TestVerifC13PolprogTable(t *testing.T) {
 		c13CheckView(t, tb, rec, v)
 	}
 	c13IPSetProbe(t, tb, rec)
+
+	// --- every stateOff* variable of the current source, also ones this table has no name for ---
+	parsed, err := c13ParseStateOffsets()
+	if err != nil {
+		t.Fatalf("%v", err)
+	}
+	seen := map[string]bool{}
+	for _, po := range parsed {
+		seen[po.name] = true
+		if c13KnownStateOffs[po.name] {
+			continue // compared by name above
+		}
+		// a state offset the harness does not know: the variable's own Field label says which
+		// C field is meant; it must sit at that field's offset in both builds
+		cname := strings.TrimPrefix(po.field, "state->")
+		for _, ipver := range c13Both {
+			cf, ok := env.l[ipver].C.Structs["tc_state"].Fields[cname]
+			if !ok {
+				t.Fatalf("HARNESS-GAP: pol_prog_builder.go declares %s (offset %d, %q) but c13_layout.json has no row for struct cali_tc_state.%s; add it",
+					po.name, po.off, po.field, cname)
+			}
+			if cf.Off != po.off {
+				t.Fatalf("C13 layout disagreement (IPv%d build): Go %s says %s is at offset %d, the C definition in felix/bpf-gpl has struct cali_tc_state.%s at offset %d (size %d)",
+					ipver, po.name, po.field, po.off, cname, cf.Off, cf.Size)
+			}
+			key := fmt.Sprintf("tc_state.%s@v%d<-parsed %s", cname, ipver, po.name)
+			rec.Case(true, key, func() any { return map[string]any{"row": key, "offset": cf.Off} }, "table-row", "stateoff-found-by-parsing")
+		}
+	}
+	for n := range c13KnownStateOffs {
+		if !seen[n] {
+			t.Fatalf("HARNESS-GAP: %s not found by parsing pol_prog_builder.go (parser and table out of step)", n)
+		}
+	}
+	rec.Extra("stateoff_vars_in_source", len(parsed))
 
 	// --- total sizes: the state lives in a fixed slot of the cali_state map -------------
 	for _, ipver := range c13Both {
@@ -506,21 +678,25 @@ func c13GenRule(t *rapid.T, ipver int, alloc *idalloc.IDAllocator) *proto.Rule {
 func TestVerifC13EmittedAccesses(t *testing.T) {
 	ev.Quiet()
 	rec := ev.New("C13", "polprog-emitted",
-		"rapid: random policy rules (protocol/ICMP/ports/nets/IP sets/named ports/negations, allow/deny/pass/log, IPv4 and IPv6, "+
-			"flow logs on/off) are compiled by the real polprog.Builder; every emitted load/store relative to R9 (state pointer) "+
-			"must hit exactly one C field of struct cali_tc_state at a whole multiple of its width, and the stores into the two "+
-			"IP-set-key stack slots must tile the C struct ip_set_key fields exactly. Non-trivial = program uses an IP set key and "+
-			">=5 distinct state fields; distinct = set of (field,width) accessed",
+		"rapid: random policies (1-2 tiers x 1-2 policies + optional profile; protocol/ICMP/ports/nets/IP sets/named ports/negations, "+
+			"allow/deny/pass/log, IPv4 and IPv6, flow logs on/off; in 2/3 of the cases with a lowered per-program jump budget so the program is split "+
+			"into sub-programs) are compiled by the real polprog.Builder; every emitted load/store relative to R9 (state pointer) must coincide "+
+			"EXACTLY (offset and width) with a field of struct cali_tc_state, an array element, a 64-bit half of an IPv6 address or the documented "+
+			"low byte of rules_hit; the stores into the two IP-set-key stack slots must tile the C struct ip_set_key fields exactly. Non-trivial = "+
+			"program uses an IP set key and >=5 distinct state fields, or is split; distinct = set of (field,width) accessed + split class",
 		"R9 holds the state pointer for the whole policy program (documented register convention in pol_prog_builder.go)")
 	defer rec.Write()
 	env := c13Start(t)
 
-	type fieldSpan struct {
-		name      string
-		off, size int
-	}
-	leaf := map[int][]fieldSpan{}
+	// allowed[ipver][{off,width}] = name: the accesses that coincide exactly with a field of
+	// struct cali_tc_state (or one of its documented parts); span[ipver] = bytes the mapping
+	// table knows about at all.
+	type acc struct{ off, width int }
+	allowed := map[int]map[acc]string{}
+	span := map[int]map[int]string{}
 	for _, ipver := range c13Both {
+		allowed[ipver] = map[acc]string{}
+		span[ipver] = map[int]string{}
 		st := env.l[ipver].C.Structs["tc_state"]
 		var names []string
 		for n := range st.Fields {
@@ -528,12 +704,29 @@ func TestVerifC13EmittedAccesses(t *testing.T) {
 		}
 		sort.Strings(names)
 		for _, n := range names {
-			// the *_wN words are sub-views of the address fields; dport overlays icmp_type/code
-			if strings.Contains(n, "_w") {
-				continue
-			}
 			f := st.Fields[n]
-			leaf[ipver] = append(leaf[ipver], fieldSpan{n, f.Off, f.Size})
+			for i := f.Off; i < f.Off+f.Size; i++ {
+				span[ipver][i] = n
+			}
+			switch {
+			case n == "rule_ids":
+				for o := 0; o+8 <= f.Size; o += 8 { // array of __u64
+					allowed[ipver][acc{f.Off + o, 8}] = n
+				}
+			case n == "eventhdr":
+				allowed[ipver][acc{f.Off, 4}] = n + ".type"
+				allowed[ipver][acc{f.Off + 4, 4}] = n + ".len"
+			case f.Size == 16: // ipv6_addr_t: four __be32 words; polprog moves it as two 64-bit halves
+				allowed[ipver][acc{f.Off, 8}] = n
+				allowed[ipver][acc{f.Off + 8, 8}] = n
+			default:
+				allowed[ipver][acc{f.Off, f.Size}] = n
+			}
+		}
+		// documented sub-word: polprog keeps the rule counter in the low byte of the
+		// little-endian __u32 rules_hit
+		if f, ok := st.Fields["rules_hit"]; ok {
+			allowed[ipver][acc{f.Off, 1}] = "rules_hit(low byte)"
 		}
 	}
 
@@ -547,16 +740,48 @@ func TestVerifC13EmittedAccesses(t *testing.T) {
 		if rapid.Bool().Draw(t, "flowLogs") {
 			opts = append(opts, WithFlowLogs())
 		}
-		nRules := rapid.IntRange(1, 3).Draw(t, "nRules")
-		var rules []Rule
-		for i := 0; i < nRules; i++ {
-			rules = append(rules, Rule{Rule: c13GenRule(t, ipver, alloc), MatchID: RuleMatchID(rapid.Uint64().Draw(t, "matchID"))})
+		// programs that are split into sub-programs hand state over between the parts: lower
+		// the per-program jump budget so that ordinary-sized policies split
+		split := rapid.IntRange(0, 2).Draw(t, "splitMode") > 0
+		maxRules := 3
+		if split {
+			opts = append(opts, WithPolicyMapIndexAndStride(rapid.IntRange(0, 5).Draw(t, "polIdx"), 1000))
+			maxRules = 6
+		}
+		genRules := func(label string) []Rule {
+			n := rapid.IntRange(1, maxRules).Draw(t, label)
+			var rules []Rule
+			for i := 0; i < n; i++ {
+				rules = append(rules, Rule{Rule: c13GenRule(t, ipver, alloc), MatchID: RuleMatchID(rapid.Uint64().Draw(t, "matchID"))})
+			}
+			return rules
+		}
+		in := Rules{ForHostInterface: rapid.Bool().Draw(t, "hostIface")}
+		nRules := 0
+		for ti := 0; ti < rapid.IntRange(1, 2).Draw(t, "nTiers"); ti++ {
+			tier := Tier{Name: fmt.Sprintf("t%d", ti), EndAction: rapid.SampledFrom([]TierEndAction{TierEndDeny, TierEndPass}).Draw(t, "tierEnd")}
+			for pi := 0; pi < rapid.IntRange(1, 2).Draw(t, "nPolicies"); pi++ {
+				rs := genRules("nRules")
+				nRules += len(rs)
+				tier.Policies = append(tier.Policies, Policy{Name: fmt.Sprintf("p%d", pi), Rules: rs})
+			}
+			in.Tiers = append(in.Tiers, tier)
+		}
+		if rapid.Bool().Draw(t, "withProfile") {
+			rs := genRules("nProfileRules")
+			for _, r := range rs {
+				if r.Action == "Pass" { // profiles have no next tier to pass to
+					r.Action = "Allow"
+				}
+			}
+			nRules += len(rs)
+			in.Profiles = []Profile{{Name: "prof", Rules: rs}}
 		}
 		pg := NewBuilder(alloc, 1, 2, 3, 4, opts...)
-		progs, err := pg.Instructions(Rules{
-			ForHostInterface: rapid.Bool().Draw(t, "hostIface"),
-			Tiers:            []Tier{{Name: "t", EndAction: TierEndDeny, Policies: []Policy{{Name: "p", Rules: rules}}}},
-		})
+		if split {
+			pg.maxJumpsPerProgram = rapid.IntRange(6, 80).Draw(t, "maxJumpsPerProgram")
+		}
+		progs, err := pg.Instructions(in)
 		if err != nil {
 			t.Fatalf("HARNESS-GAP: builder rejected generated rules: %v", err)
 		}
@@ -564,25 +789,27 @@ func TestVerifC13EmittedAccesses(t *testing.T) {
 		cl := env.l[ipver].C
 		used := map[string]bool{}
 		for _, a := range stAcc {
-			var hit *fieldSpan
-			for i := range leaf[ipver] {
-				f := &leaf[ipver][i]
-				if a.off >= f.off && a.off+a.width <= f.off+f.size {
-					// prefer the narrowest containing field (icmp_type inside dport's union slot)
-					if hit == nil || f.size < hit.size {
-						hit = f
+			name, ok := allowed[ipver][acc{a.off, a.width}]
+			if !ok {
+				known := 0
+				var touched []string
+				for i := a.off; i < a.off+a.width; i++ {
+					if n, ok := span[ipver][i]; ok {
+						known++
+						if len(touched) == 0 || touched[len(touched)-1] != n {
+							touched = append(touched, n)
+						}
 					}
 				}
+				if known == 0 {
+					t.Fatalf("HARNESS-GAP: IPv%d policy program accesses state bytes [%d,%d) (store=%v) that no row of c13_layout.json describes; "+
+						"add the field to the mapping file", ipver, a.off, a.off+a.width, a.store)
+				}
+				t.Fatalf("C13 layout disagreement: the IPv%d policy program emitted by polprog (%d sub-programs) %s %d bytes at state offset %d; "+
+					"in struct cali_tc_state these bytes belong to %v and no field (or array element / documented part) starts at %d with size %d",
+					ipver, len(progs), map[bool]string{true: "stores", false: "loads"}[a.store], a.width, a.off, touched, a.off, a.width)
 			}
-			if hit == nil {
-				t.Fatalf("C13: IPv%d policy program accesses state bytes [%d,%d) (store=%v), which is not inside any single field of "+
-					"struct cali_tc_state in the mapping table (C layout: %v)", ipver, a.off, a.off+a.width, a.store, leaf[ipver])
-			}
-			if (a.off-hit.off)%a.width != 0 {
-				t.Fatalf("C13: IPv%d policy program accesses state field %s (C offset %d size %d) at misaligned bytes [%d,%d)",
-					ipver, hit.name, hit.off, hit.size, a.off, a.off+a.width)
-			}
-			used[fmt.Sprintf("%s/%d", hit.name, a.width)] = true
+			used[fmt.Sprintf("%s/%d", name, a.width)] = true
 		}
 		usesKey := false
 		keyStruct := cl.Structs["ip_set_key"]
@@ -626,13 +853,16 @@ func TestVerifC13EmittedAccesses(t *testing.T) {
 			keys = append(keys, k)
 		}
 		sort.Strings(keys)
-		shape := fmt.Sprintf("v%d key=%v %s", ipver, usesKey, strings.Join(keys, ","))
+		shape := fmt.Sprintf("v%d key=%v progs=%d %s", ipver, usesKey, c13Cls(uint64(len(progs)-1)), strings.Join(keys, ","))
 		classes := []string{fmt.Sprintf("ipv%d", ipver)}
 		if usesKey {
 			classes = append(classes, "uses-ipset-key")
 		}
-		rec.SizedCase(usesKey && len(keys) >= 5, shape, len(keys), func() any {
-			return map[string]any{"ipver": ipver, "state_fields_accessed": keys, "ipset_key_used": usesKey, "rules": len(rules)}
+		if len(progs) > 1 {
+			classes = append(classes, "split-into-sub-programs")
+		}
+		rec.SizedCase((usesKey && len(keys) >= 5) || len(progs) > 1, shape, len(keys), func() any {
+			return map[string]any{"ipver": ipver, "state_fields_accessed": keys, "ipset_key_used": usesKey, "rules": nRules, "sub_programs": len(progs)}
 		}, classes...)
 	})
 }
